@@ -12,7 +12,7 @@ Theorem C07_application_tables_independent_of_versioning : forall g g' evs,
   same_classes g g' -> d_live (s_db (run g evs)) = d_live (s_db (run g' evs)).
 Proof. exact versioning_transparent. Qed.
 
-Theorem C07_versioning_never_raises : forall g evs, cfg_consistent g -> flat_hier g -> s_err (run g evs) = false.
+Theorem C07_versioning_never_raises : forall g evs, cfg_consistent g -> hier_consistent g -> s_err (run g evs) = false.
 Proof. exact reachable_no_error. Qed.
 
 Theorem C07_removed_versioning_writes_nothing : forall g s objs ents assoc,
